@@ -1640,6 +1640,18 @@ class Exec:
             if name == 'collections.namedtuple':
                 fields = [x.s for x in self.items(A[1], st)]
                 return [(st, VBuiltin('namedtuple', bound=('nt', A[0].s, tuple(fields))))]
+            if name in ('binascii.hexlify', 'binascii.unhexlify', 'binascii.b2a_hex', 'binascii.a2b_hex'):
+                HEXF = z3.Function('HEXLIFY', BYTES, BYTES)
+                UNHEXF = z3.Function('UNHEXLIFY', BYTES, BYTES)
+                x = A[0]
+                xs = self.strseq(x) if isinstance(x, VStr) else self.seq(x, st)
+                if name in ('binascii.hexlify', 'binascii.b2a_hex'):
+                    t = HEXF(xs)
+                    st.facts += [z3.Length(t) == 2 * z3.Length(xs), UNHEXF(t) == xs]
+                else:
+                    t = UNHEXF(xs)
+                    st.facts += [2 * z3.Length(t) == z3.Length(xs)]
+                return [(st, VBytes(t))]
             if name in ('re.subn', 're.sub'):
                 pat, rep = self.conc_bytes(A[0], st), self.conc_bytes(A[1], st)
                 if pat is None or rep is None:
@@ -1930,6 +1942,16 @@ class Exec:
     def iter_items(self, it, st):
         if isinstance(it, (VList, VTuple, VSet)):
             return self.items(it, st)
+        if isinstance(it, VObj):
+            outs = None
+            for s2, m in self.getattr(it, '__iter__', st, {'mod': 'pgpy'}):
+                if isinstance(m, Raise):
+                    break
+                outs = self.call(m, [], {}, s2, {'mod': 'pgpy'}, None, None)
+                break
+            if outs is None or len(outs) != 1 or isinstance(outs[0][1], Raise) or outs[0][0] is not st:
+                raise ToolLimit('iteration over %s (its __iter__ forks, raises or is missing)' % it.cls)
+            return self.iter_items(outs[0][1], st)
         if isinstance(it, VDict):
             return [k for k, _ in it.pairs]
         if isinstance(it, VRange):
